@@ -829,7 +829,7 @@ func (d *driver) main(only string, scale float64) int {
 		os.MkdirAll(dir, 0o755)
 		name := fmt.Sprintf("%s-%s-%d-%d-%x.json", g.v.Mode, g.v.Build, g.v.Index, g.v.CaseSeed, core.HashString(sig)&0xffffff)
 		p := filepath.Join(dir, name)
-		b, _ := json.MarshalIndent(map[string]any{"violation": g.v, "occurrences_with_this_signature": g.n, "tier": d.tier,
+		b, _ := json.MarshalIndent(map[string]any{"violation": g.v, "occurrences_with_this_signature": g.n, "tier": d.tier, "param": d.param,
 			"how_to_replay": "./check replay " + p}, "", " ")
 		os.WriteFile(p, b, 0o644)
 		fmt.Printf("VIOLATION property=%s replay=%s\n", d.prop, p)
@@ -935,6 +935,7 @@ func replay(root, path string) int {
 	var doc struct {
 		Violation core.Violation `json:"violation"`
 		Tier      string         `json:"tier"`
+		Param     string         `json:"param"`
 	}
 	if err := json.Unmarshal(b, &doc); err != nil {
 		fmt.Fprintln(os.Stderr, err)
@@ -943,7 +944,7 @@ func replay(root, path string) int {
 	v := doc.Violation
 	d := &driver{root: root, harness: filepath.Join(root, "harness"), prop: v.Prop, tier: doc.Tier, seed: v.RunSeed,
 		bins: map[string]string{}, binTagged: map[string]bool{}, counters: map[string]int64{}, maxes: map[string]int64{},
-		distinct: map[string]map[uint64]struct{}{}, nontrivial: map[uint64]struct{}{}, notes: map[string]string{}, verbose: true}
+		distinct: map[string]map[uint64]struct{}{}, nontrivial: map[uint64]struct{}{}, notes: map[string]string{}, verbose: true, param: doc.Param}
 	d.work = filepath.Join(root, "bin", fmt.Sprintf("work-replay-%d", os.Getpid()))
 	os.MkdirAll(d.work, 0o755)
 	defer os.RemoveAll(d.work)
